@@ -2,7 +2,10 @@ package configx
 
 import (
 	"context"
+	"errors"
 	"fmt"
+	"io"
+	"net/http"
 	"os"
 	"path/filepath"
 	"regexp"
@@ -45,13 +48,22 @@ type c27Step struct {
 	Rules2    string `json:"rules2,omitempty"`
 	Rules2Var int    `json:"rules2_var,omitempty"`
 	Trig2     string `json:"trig2,omitempty"` // reload | pubsub
+	// overlap: where the first trigger is held. "option" = at the scheduling-point option (sources already
+	// read). "fetch-captured" = inside the fetch of its first URL source, the response carrying the content
+	// of the moment the request was RECEIVED. "fetch-late" = same, but the response carries the content of
+	// the moment it is RELEASED. The fetch holds need a URL source and fall back to "option" without one.
+	Hold string `json:"hold,omitempty"`
 }
 
 type c27Case struct {
 	Version   string    `json:"version"` // what main() passes to NewConfig: "dev" (no BuildID) or a release number
 	InitCfg   string    `json:"init_cfg"`
 	Listeners int       `json:"listeners"`
-	Steps     []c27Step `json:"steps"`
+	// where the sources live: "file" (local path) or "url" (http location served by a harness-owned
+	// in-memory transport; refinery fetches URL locations through http.DefaultClient)
+	CfgLoc   string    `json:"cfg_loc,omitempty"`
+	RulesLoc string    `json:"rules_loc,omitempty"`
+	Steps    []c27Step `json:"steps"`
 }
 
 const (
@@ -124,6 +136,8 @@ func genC27(t *rapid.T) c27Case {
 		c.InitCfg = rapid.SampledFrom([]string{"warn", "warn2"}).Draw(t, "initkind")
 	}
 	c.Listeners = rapid.IntRange(1, 3).Draw(t, "listeners")
+	c.CfgLoc = rapid.SampledFrom([]string{"file", "file", "file", "url"}).Draw(t, "cfgloc")
+	c.RulesLoc = rapid.SampledFrom([]string{"file", "file", "url"}).Draw(t, "rulesloc")
 	cfgKinds := []string{"same", "same", "touch", "valid", "valid", "valid", "comment", "warn", "warn2", "invalid", "garbled", "missing"}
 	rulesKinds := []string{"same", "same", "same", "touch", "valid", "valid", "invalid", "garbled", "missing"}
 	stepGen := rapid.Custom(func(t *rapid.T) c27Step {
@@ -148,6 +162,7 @@ func genC27(t *rapid.T) c27Case {
 		default:
 			s.Trig = "overlap"
 			s.Trig2 = rapid.SampledFrom([]string{"reload", "pubsub"}).Draw(t, "trig2")
+			s.Hold = rapid.SampledFrom([]string{"option", "fetch-captured", "fetch-captured", "fetch-late"}).Draw(t, "hold")
 			s.Cfg2 = rapid.SampledFrom([]string{"same", "valid", "valid", "comment", "invalid"}).Draw(t, "cfg2")
 			s.Cfg2Var = rapid.IntRange(0, 3).Draw(t, "cfg2var")
 			s.Rules2 = rapid.SampledFrom([]string{"same", "same", "valid"}).Draw(t, "rules2")
@@ -285,6 +300,79 @@ func c27Quiesce() (lockWaiters bool, capped bool) {
 	return false, true
 }
 
+// c27Transport serves the URL sources of a case from memory (no sockets, so a
+// held fetch is a durably blocked channel receive inside the bubble). One
+// request can be held: arm(mode) makes the NEXT request wait for release().
+type c27Transport struct {
+	mu      sync.Mutex
+	content map[string]string // URL path -> body; absent = unreachable
+	mode    int               // 0 none, 1 hold + serve content captured at receipt, 2 hold + serve content current at release
+	held    int
+	release chan struct{}
+	closed  bool
+}
+
+func (rt *c27Transport) set(path string, data []byte, present bool) {
+	rt.mu.Lock()
+	if present {
+		rt.content[path] = string(data)
+	} else {
+		delete(rt.content, path)
+	}
+	rt.mu.Unlock()
+}
+
+func (rt *c27Transport) arm(mode int) {
+	rt.mu.Lock()
+	rt.mode, rt.held, rt.release, rt.closed = mode, 0, make(chan struct{}), false
+	rt.mu.Unlock()
+}
+
+func (rt *c27Transport) open() {
+	rt.mu.Lock()
+	rt.mode = 0
+	if rt.release != nil && !rt.closed {
+		close(rt.release)
+		rt.closed = true
+	}
+	rt.mu.Unlock()
+}
+
+func (rt *c27Transport) heldCount() int {
+	rt.mu.Lock()
+	defer rt.mu.Unlock()
+	return rt.held
+}
+
+func (rt *c27Transport) RoundTrip(req *http.Request) (*http.Response, error) {
+	rt.mu.Lock()
+	body, ok := rt.content[req.URL.Path]
+	mode, ch := rt.mode, rt.release
+	if mode != 0 {
+		rt.mode = 0 // only this request
+		rt.held++
+	}
+	rt.mu.Unlock()
+	if mode != 0 {
+		<-ch
+		if mode == 2 {
+			rt.mu.Lock()
+			body, ok = rt.content[req.URL.Path]
+			rt.mu.Unlock()
+		}
+	}
+	if !ok {
+		return nil, errors.New("c27 transport: connection refused")
+	}
+	return &http.Response{
+		Status: "200 OK", StatusCode: 200, Proto: "HTTP/1.1", ProtoMajor: 1, ProtoMinor: 1,
+		Header:        http.Header{"Content-Type": []string{"application/yaml"}},
+		Body:          io.NopCloser(strings.NewReader(body)),
+		ContentLength: int64(len(body)),
+		Request:       req,
+	}, nil
+}
+
 type c27Listener struct {
 	calls  atomic.Int64
 	mu     sync.Mutex
@@ -312,6 +400,7 @@ type c27Obs struct {
 	HeldSnap       map[string]string
 	Triggers       int
 	ListenersAtEnd int
+	AltSnaps       []map[string]string // overlap with a held fetch: what loads of the mixed reads (one source old, one new) give
 	Serialised     bool // while a reload was parked at the gate, another trigger waited for a lock
 	Capped         bool
 }
@@ -338,9 +427,29 @@ func c27Execute(c c27Case) (run c27Run) {
 	defer os.RemoveAll(dir)
 	cfgPath := filepath.Join(dir, "config.yaml")
 	rulesPath := filepath.Join(dir, "rules.yaml")
+	// URL sources: refinery fetches them with http.DefaultClient; for the duration of the case the
+	// default transport is the case's in-memory one (cases run sequentially)
+	rt := &c27Transport{content: map[string]string{}}
+	savedTransport := http.DefaultTransport
+	http.DefaultTransport = rt
+	defer func() { http.DefaultTransport = savedTransport }()
+	urlPaths := map[string]string{}
+	if c.CfgLoc == "url" {
+		cfgPath = "http://c27.invalid/c27/config.yaml"
+		urlPaths[cfgPath] = "/c27/config.yaml"
+	}
+	if c.RulesLoc == "url" {
+		rulesPath = "http://c27.invalid/c27/rules.yaml"
+		urlPaths[rulesPath] = "/c27/rules.yaml"
+	}
+	anyURL := c.CfgLoc == "url" || c.RulesLoc == "url"
 	args := []string{"refinery", "-c", cfgPath, "-r", rulesPath}
 
 	write := func(path string, data []byte, present bool) {
+		if up, ok := urlPaths[path]; ok {
+			rt.set(up, data, present)
+			return
+		}
 		if !present {
 			os.Remove(path)
 			return
@@ -558,13 +667,30 @@ func c27Execute(c c27Case) (run c27Run) {
 				// only used to name a deviation: what a version-less load makes of the held content
 				o.HeldSnapOK, o.HeldSnap = true, c27SnapAll(hc)
 			}
+			heldContent := onDisk
 			before := counts()
-			gate.arm(2)
+			hold := st.Hold
+			if hold == "" || !anyURL {
+				hold = "option"
+			}
+			o.Trig = "overlap[" + hold + "]/" + st.Trig2
+			switch hold {
+			case "fetch-captured":
+				rt.arm(1)
+			case "fetch-late":
+				rt.arm(2)
+			default:
+				gate.arm(2)
+			}
 			go doReload()
 			c27Quiesce()
-			if gate.heldCount() == 0 {
+			if hold == "option" && gate.heldCount() == 0 {
 				// unreadable files: the first reload failed before its scheduling point; nothing is held
 				gate.open()
+			}
+			if hold != "option" && rt.heldCount() == 0 {
+				// the first reload ended before it fetched a URL source
+				rt.open()
 			}
 			// files move on to content C; a second trigger runs to completion
 			setCfg(st.Cfg2, st.Cfg2Var, "")
@@ -575,6 +701,24 @@ func c27Execute(c c27Case) (run c27Run) {
 				o.FreshSnap = c27SnapAll(fc)
 			}
 			o.Changed = onDisk != applied
+			if hold != "option" {
+				// a reload held inside a fetch may legitimately have read one source before and the other
+				// after the change: record what such mixed reads load as
+				for _, mix := range []content{
+					{cfg: heldContent.cfg, cfgOK: heldContent.cfgOK, rules: onDisk.rules, rulesOK: onDisk.rulesOK},
+					{cfg: onDisk.cfg, cfgOK: onDisk.cfgOK, rules: heldContent.rules, rulesOK: heldContent.rulesOK},
+				} {
+					write(cfgPath, []byte(mix.cfg), mix.cfgOK)
+					write(rulesPath, []byte(mix.rules), mix.rulesOK)
+					if mc, acc, _, _ := fresh(); acc {
+						o.AltSnaps = append(o.AltSnaps, c27SnapAll(mc))
+					} else if mc, acc, _ := cxLoad(args); acc {
+						o.AltSnaps = append(o.AltSnaps, c27SnapAll(mc))
+					}
+				}
+				write(cfgPath, []byte(onDisk.cfg), onDisk.cfgOK)
+				write(rulesPath, []byte(onDisk.rules), onDisk.rulesOK)
+			}
 			// the second trigger runs on its own goroutine: with a serialising implementation it cannot
 			// finish before the first is released; then they finish in the order the implementation imposes
 			if st.Trig2 == "pubsub" {
@@ -584,6 +728,7 @@ func c27Execute(c c27Case) (run c27Run) {
 			}
 			o.Serialised, o.Capped = c27Quiesce()
 			gate.open()
+			rt.open()
 			observe(&o, before)
 			run.Obs = append(run.Obs, o)
 			if !resync(&o) {
@@ -612,10 +757,20 @@ func c27Execute(c c27Case) (run c27Run) {
 	}
 done:
 	gate.open()
+	rt.open()
 	watcher.Stop()
 	ps.Stop()
 	synctest.Wait()
 	return run
+}
+
+func c27InSnaps(snap map[string]string, alts []map[string]string) bool {
+	for _, a := range alts {
+		if len(cxDiffKeys(snap, a)) == 0 {
+			return true
+		}
+	}
+	return false
 }
 
 func c27ErrClass(errText string) string {
@@ -641,6 +796,7 @@ func execC27(c c27Case) vkit.Result {
 		return res
 	}
 	res.Class("version=" + c.Version)
+	res.Class(fmt.Sprintf("sources:cfg=%s,rules=%s", map[bool]string{true: "url", false: "file"}[c.CfgLoc == "url"], map[bool]string{true: "url", false: "file"}[c.RulesLoc == "url"]))
 	for _, o := range run.Obs {
 		res.Class("trigger:" + strings.Split(o.Trig, "/")[0])
 		where := fmt.Sprintf("step %d iter %d [%s] trigger=%s", o.Step, o.Iter, o.Label, o.Trig)
@@ -694,7 +850,7 @@ func execC27(c c27Case) vkit.Result {
 				} else {
 					res.Violate("C27/overlap/final-config-not-current", "%s: after both triggers completed the running config differs from a fresh load in %v", where, cxDiffKeys(o.SutSnap, o.FreshSnap))
 				}
-			case !o.FreshAccepted && !sameAsPrev && !(o.HeldSnapOK && len(cxDiffKeys(o.SutSnap, o.HeldSnap)) == 0):
+			case !o.FreshAccepted && !sameAsPrev && !(o.HeldSnapOK && len(cxDiffKeys(o.SutSnap, o.HeldSnap)) == 0) && !c27InSnaps(o.SutSnap, o.AltSnaps):
 				res.Violate("C27/rejected-change-applied/"+c27ErrClass(o.FreshErr), "%s: startup rejects the files (%q) but getters moved: %v", where, o.FreshErr, cxDiffKeys(o.SutSnap, o.PrevSnap))
 			}
 			// notifications: two contents were on disk, so at most two changes were applied, every
@@ -766,16 +922,17 @@ func TestC27(t *testing.T) {
 	c27T = t
 	vkit.Run(t, vkit.Spec[c27Case]{
 		ID: "C27",
-		Rule: "rapid-generated histories (1-8 steps) over one config file and one rules file; per step the config file becomes {same, rewritten, valid variant, comment-only change, deprecated option with/without deprecation text, invalid, unparsable, missing} " +
+		Rule: "rapid-generated histories (1-8 steps) over one config source and one rules source, each a local file or (in ~25%/33% of cases) an http URL served by a harness-owned in-memory transport installed as http.DefaultTransport for the case; per step the config file becomes {same, rewritten, valid variant, comment-only change, deprecated option with/without deprecation text, invalid, unparsable, missing} " +
 			"and the rules file {same, rewritten, valid variant, invalid, unparsable, missing}, followed by a trigger {the watcher's real ticker (virtual time), a direct Reload as the ticker would do, a cfg_update pubsub message, " +
 			"a storm of 2-8 concurrent triggers (alternating direct Reload / pubsub message, real goroutines held at a barrier after reading the files and released together; 20 iterations with a fresh change each), " +
-			"an overlap (first trigger reads content B and is held, files move on to C, second trigger runs until it completes or waits for a lock, first released)}; 1-3 listeners plus listeners registered mid-history; startup version 'dev' or '3.2.2'. " +
+			"an overlap (first trigger reads content B and is held - at the scheduling-point option, or inside the fetch of a URL source with the response carrying the content captured when the request was received, or the content current at release -, sources move on to C, second trigger runs until it completes or waits for a lock, first released)}; 1-3 listeners plus listeners registered mid-history; startup version 'dev' or '3.2.2'. " +
 			"Real fileConfig + real ConfigWatcher + LocalPubSub inside a synctest bubble. After every trigger, judged against a FRESH NewConfig(opts, version) on the files of that moment. " +
 			"Non-trivial: a step whose files startup accepts only with warnings, or a concurrent/overlapping trigger. Distinct = distinct case JSON.",
 		Assumptions: []string{
 			"'startup would accept' = config.NewConfig(opts, version) returns a Config (possibly with a warning error), with the version string main() passes: 'dev' for a build without BuildID, else the release number",
 			"'content changed' = file bytes differ from the bytes of the last applied configuration (a comment-only edit is a change; rewriting identical bytes is not)",
 			"a ReloadedConfigDataOption that never touches the data is used as a scheduling point inside the real Reload (after the files were read, before validation); it is the only instrumentation",
+			"URL sources are fetched by refinery through http.DefaultClient; swapping http.DefaultTransport for an in-memory RoundTripper keeps the whole fetch inside the bubble (a held response is a durably blocked channel receive); an unreachable URL stands for a missing file",
 			"an implementation may serialise reloads: while a reload is parked at the scheduling point the harness never blocks on another reload; it polls goroutine states (parked / waiting for a lock / still working) and releases the parked reload as soon as nobody is working, so the triggers finish in whatever order the implementation imposes",
 			"the watcher's ticker is exercised on synctest virtual time; extra ticks on unchanged files must be no-ops",
 			"storm verdicts are schedule-dependent: a double or lost notification is reported when observed in one of the 20 iterations, silence proves nothing",
